@@ -145,6 +145,9 @@ def cases(c, rng, shard):
                             a3 = dict(a)
                             a3["data"] = empty
                             yield a3
+        for a in harness.novel_products(c, rng, limit=6000):
+            if S.ata_transfer(a) is not None:
+                yield a
         return
     bss = harness.BLOCKSIZES if "blocksize" in c.args else [None]
     for bs in bss:
